@@ -118,6 +118,31 @@ C03_ScaleInvariant(g, bc, lam, full, fullS, Mbc, Rbc, MbcS, RbcS) ==
               /\ RbcS[c] = RMul(lam, Rbc[c])
               /\ \A q \in AllCells(g) : MGet(MbcS, c, q) = RMul(lam, MGet(Mbc, c, q))
 
+\* plotprofile(): interior values as stored, boundary entries = face averages
+C03_PlotProfile(g, full, prof) ==
+  \A c \in AllCells(g) :
+     CASE GhostDegree(g, c) = 0 -> prof[c] = full[c]
+       [] GhostDegree(g, c) = 1 ->
+            LET a == CHOOSE x \in Axes(g) : c[x] = 0 \/ c[x] = NCells(g, x) + 1
+                P == Shift(c, a, IF c[a] = 0 THEN 1 ELSE -1)
+            IN  prof[c] = RMul(RHalf, RAdd(full[c], full[P]))
+       [] OTHER -> TRUE
+
+\* midpoint-rule cell volume of SphericalGrid3D (the weight its operators divide by)
+MidVolume(g) == [c \in AllCells(g) |->
+   IF c \in Interior(g)
+   THEN RMul(RMul(RMul(RSq(Rp(g, c)), SinM(g, ThP(g, c))), Size(g, 1, c[1])),
+             RMul(Size(g, 2, c[2]), Size(g, 3, c[3])))
+   ELSE RZero]
+\* closed periodic system: fold every ghost column onto its periodic image first
+C01_ClosedPeriodic(g, bc, V, M) ==
+  LET img(c) == [a \in 1..Len(c) |->
+                   IF PeriodicAxis(g, bc, a) /\ c[a] = 0 THEN NCells(g, a)
+                   ELSE IF PeriodicAxis(g, bc, a) /\ c[a] = NCells(g, a) + 1 THEN 1 ELSE c[a]]
+  IN  \A c \in Interior(g) :
+        RIsZero(RSumSet({q \in AllCells(g) : img(q) = c /\ GhostDegree(g, q) <= 1},
+                        LAMBDA q : WeightedColSum(V, M, q)))
+
 \* the reference mesh record (what the documentation promises)
 RefMesh(g) ==
   [dims        |-> Dims(g),
